@@ -1,10 +1,23 @@
 // ===== prelude/chunkdefs.rs: ChunkId and LogData (copied) =====
 //@struct src/chunk/chunk_id.rs ChunkId derive=Clone,Copy,PartialEq,Eq,PartialOrd,Ord
+// derive(PartialOrd, Ord, PartialEq, Eq) on the newtype (E16, ASSUMED): the order of the wrapped offset
+pub broadcast axiom fn axiom_chunkid_ord()
+    ensures #[trigger] obeys_cmp::<ChunkId>();
+pub broadcast axiom fn axiom_chunkid_cmp(a: ChunkId, b: ChunkId)
+    ensures #[trigger] a.cmp_spec(&b) == (if a.0 < b.0 { Ordering::Less } else if a.0 == b.0 { Ordering::Equal } else { Ordering::Greater });
 impl ChunkId {
 //@fn src/chunk/chunk_id.rs ChunkId::offset
 props: C11 C09
 ensures:
   [C11 def] r == self.0
+//@end
+}
+impl core::ops::Deref for ChunkId {
+    type Target = u64;
+//@fn src/chunk/chunk_id.rs ChunkId::deref trait=Deref
+props: C11
+ensures:
+  [C11 def] *r == self.0
 //@end
 }
 //@struct src/raft_log/log_data.rs LogData
